@@ -62,6 +62,20 @@ def _mentions_caller_state(expr, ctxname="context", state=CALLER_STATE) -> list[
     return bad
 
 
+CONTEXT_OK_ATTRS = {"env", "autoescape", "template", "copy", "tag_namespace"}  # tag_namespace["macros"] holds parsed macro definitions, not variables
+
+
+def _reads_through_context(expr, ctxname="context") -> list[str]:
+    """uses of the caller's context as a *receiver* (``context.resolve(name)``, ``context.get``,
+    ``context.scope[...]`` ...) other than the environment / configuration attributes: each is a
+    read of caller variables that no argument expression of the tag asked for."""
+    bad = []
+    for n in ast.walk(expr):
+        if isinstance(n, ast.Attribute) and is_name(n.value, ctxname) and n.attr not in CONTEXT_OK_ATTRS:
+            bad.append(text(n))
+    return bad
+
+
 def run(repo: Repo) -> Result:
     res = Result(PID)
     res.rules = ["C15-COPY", "C15-NS", "C15-CTOR", "C15-FRESH", "C15-INIT", "C15-PARENT", "C15-DISABLED"]
@@ -124,6 +138,9 @@ def run(repo: Repo) -> Result:
                         bad = _mentions_caller_state(e, state=("locals", "scope", "loops", "counters"))
                         for b_ in bad:
                             res.add("C15-NS", f.qual, f"namespace<-{b_}", f"{f.qual}: caller state `{b_}` flows into the partial's namespace", f.file, getattr(e, "lineno", cp.lineno))
+                        for b_ in _reads_through_context(e):
+                            if b_ not in bad:
+                                res.add("C15-NS", f.qual, f"namespace<-{b_}", f"{f.qual}: `{b_}` reads the caller's variables directly (not through an argument expression of the tag) into the partial's namespace", f.file, getattr(e, "lineno", cp.lineno))
                         for nm in names_in(e):
                             if nm == "context":
                                 # bare `context` passed as a mapping / argument of a non-evaluate call
@@ -139,6 +156,8 @@ def run(repo: Repo) -> Result:
                             if isinstance(ns, ast.Name) and (base == ns.id or any(base in names_in(v) for v in vals.get(ns.id, []))):
                                 for b_ in _mentions_caller_state(st.value):
                                     res.add("C15-NS", f.qual, f"namespace[...]<-{b_}", f"{f.qual}: caller state `{b_}` stored into the partial's namespace", f.file, st.lineno)
+                                for b_ in _reads_through_context(st.value):
+                                    res.add("C15-NS", f.qual, f"namespace[...]<-{b_}", f"{f.qual}: `{b_}` reads the caller's variables directly (not through an argument expression of the tag) and stores the result in the isolated namespace — a parameter that was not passed picks up the caller's variable of the same name", f.file, st.lineno)
                     res.sample({"rule": "C15-COPY", "site": f.qual, "copy": text(cp)[:120]})
 
     check_node(RENDER, ("render_to_output", "render_to_output_async"), ("render_with_context", "render_with_context_async"), {"include"})
@@ -265,6 +284,31 @@ def run(repo: Repo) -> Result:
         tv = text(r.value)
         if tv != "self.loops[-1]" and not tv.startswith("self.env.undefined("):
             res.add("C15-PARENT", pl.qual, f"returns:{tv[:40]}", f"parentloop() must answer from this context's own loop stack or with Undefined; it returns `{tv}`", pl.file, r.lineno)
+
+    # ---- C15-DISABLED (block contexts inherit the restriction) -------------------------
+    # `render` disables `include` on the partial's context.  A `{% block %}` of that partial (when it
+    # extends a base) runs on a block-scope *copy*: unless the copy takes over the parent's
+    # disabled tags when the caller passes none, `include` works again inside the block.
+    for c, isolated, part in ctor_calls:
+        if isolated:
+            continue
+        res.ob(f"{copy_fn.qual}:block-disabled")
+        kw = {k.arg: k.value for k in c.keywords}
+        srcs = [text(kw["disabled_tags"])] if "disabled_tags" in kw else []
+        for s_ in part:
+            for a_ in [s_] + list(walk_no_nested(s_)):
+                if isinstance(a_, ast.Assign) and any(is_name(t, "disabled_tags") for t in a_.targets):
+                    srcs.append(text(a_.value))
+        if not any("self.disabled_tags" in t for t in srcs):
+            res.add(
+                "C15-DISABLED",
+                copy_fn.qual,
+                "block-scope-drops-disabled",
+                "RenderContext.copy(block_scope=True) builds the block's context with "
+                f"disabled_tags={srcs or 'nothing'}: the parent context's disabled tags are not inherited, so a partial rendered with `render` can use `include` from inside an inheritance block",
+                copy_fn.file,
+                c.lineno,
+            )
 
     # ---- C15-DISABLED (Node.render) ---------------------------------------------
     for m, target in (("render", "render_to_output"), ("render_async", "render_to_output_async")):
